@@ -294,7 +294,7 @@ theorem evalPL_calls_of (L : Limits) (env : Env) (e : Expr) (m : Msg) (fl : MFla
   refine calls_toProg_qs (evalTL_qs L env m e 0 m _) fun q hq => ?_
   cases q with
   | command av =>
-    exact Calls.bind (calls_mono' execCall_execP fun c hc => .inl ⟨hq, hc⟩) fun _ => True.intro
+    exact Calls.bind (calls_mono' (execCall_execP _) fun c hc => .inl ⟨hq, hc⟩) fun _ => True.intro
   | isDir p => exact ⟨.inr ⟨.inl hq, p, rfl⟩, fun _ => True.intro⟩
   | fileTime p f => exact ⟨.inr ⟨.inr hq.1, p, rfl⟩, fun _ => True.intro⟩
 
